@@ -96,3 +96,17 @@ Proof.
       destruct (den esr1 esr2 leaf a), (den esr1 esr2 leaf b); try reflexivity. now rewrite Hfg.
     + destruct (H2 l (or_introl eq_refl)) as [Hc|Hn]; [congruence|]. rewrite Hn. reflexivity.
 Qed.
+
+(* every symbol entry of the two tables binds a name to the symbol OF THAT NAME (x -> x, ak -> ak): a parameter name that is bound
+   to another parameter's symbol (e.g. "a3" -> a2) would make the reader ignore a parameter *)
+Definition syms_identity (t : list (string * (string * symkind))) : bool :=
+  forallb (fun e => String.eqb (fst e) (fst (snd e))) t.
+
+Lemma syms_identity_ok : syms_identity gen_syms = true /\ syms_identity fit_syms = true.
+Proof. split; reflexivity. Qed.
+
+Lemma syms_identity_spec : forall t k v kind, syms_identity t = true -> In (k, (v, kind)) t -> k = v.
+Proof.
+  intros t k v kind H Hin. unfold syms_identity in H. rewrite forallb_forall in H.
+  specialize (H _ Hin). cbn [fst snd] in H. now apply String.eqb_eq.
+Qed.
